@@ -16,9 +16,9 @@ from simkit import procstate
 from simkit.core import Counter, EventLog, Violation, hash_array
 
 PID = "C10"
-KINDS = ("grid1", "grid2", "grid3", "oned", "rule", "atom", "mol", "uniform", "tensor", "periodic", "angular", "shell")
-SELECTABLE = ("grid1", "grid2", "grid3", "oned", "rule", "periodic")
-QUERYABLE = ("grid1", "grid2", "grid3", "oned", "rule", "atom", "mol", "uniform", "tensor", "local", "angular", "shell")
+KINDS = ("grid1", "grid2", "grid3", "oned", "rule", "atom", "mol", "uniform", "tensor", "periodic", "angular", "shell", "intgrid")
+SELECTABLE = ("grid1", "grid2", "grid3", "oned", "rule", "periodic", "intgrid")
+QUERYABLE = ("grid1", "grid2", "grid3", "oned", "rule", "atom", "mol", "uniform", "tensor", "local", "angular", "shell", "intgrid")
 CENTER_KINDS = ("random", "onpoint", "far", "centroid", "badshape")
 RADIUS_KINDS = ("zero", "tiny", "q10", "q50", "q90", "huge", "inf", "neg", "nan", "exact")
 INDEX_KINDS = ("int", "negint", "npint", "npint32", "slice", "slice_step", "intarray", "mask", "list", "uintarray", "negarray", "boollist", "lastint")
@@ -39,7 +39,10 @@ def _gen_new(rng, cfg):
         lattice = rng.random() < 0.6 or (kind == "periodic" and dim == 1)
         return ["new", kind, {"n": n, "dim": dim, "seed": rng.randrange(10**6), "lattice": lattice, "dup": rng.random() < 0.15}]
     if kind == "rule":
-        return ["new", kind, {"n": rng.randint(2, 40)}]
+        return ["new", kind, {"n": rng.randint(2, 40), "which": rng.choice(["gl", "gl", "uniform_integer", "trapezoid"])}]
+    if kind == "intgrid":
+        # points stored with an integer dtype (an index lattice); centres are real numbers all the same
+        return ["new", kind, {"n": rng.randint(3, 40), "dim": rng.choice([1, 2, 3]), "seed": rng.randrange(10**6), "dtype": rng.choice(["int64", "int32", "float32"])}]
     if kind == "atom":
         return ["new", kind, {"nr": rng.randint(2, 6), "deg": rng.choice([3, 5, 7]), "center": [round(rng.uniform(-2, 2), 2) for _ in range(3)] if rng.random() < 0.8 else [0.0, 0.0, 0.0], "rotate": rng.choice([0, 0, 11])}]
     if kind == "mol":
@@ -117,8 +120,16 @@ def _build(p_kind, p):
         pts, w = _rand_points(p["seed"], p["n"], 1, p["dup"])
         return OneDGrid(pts, w, (-2.5, 2.5)), {"domain": (-2.5, 2.5)}
     if p_kind == "rule":
-        g = GaussLegendre(p["n"])
+        from grid.onedgrid import Trapezoidal, UniformInteger
+
+        g = {"gl": GaussLegendre, "uniform_integer": UniformInteger, "trapezoid": Trapezoidal}[p.get("which", "gl")](p["n"])
         return g, {"domain": tuple(g.domain)}
+    if p_kind == "intgrid":
+        r = np.random.RandomState(p["seed"] % (2**32))
+        pts = r.randint(-4, 5, size=(p["n"], p["dim"])).astype(p["dtype"])
+        if p["dim"] == 1:
+            pts = pts[:, 0].copy()
+        return Grid(pts, r.uniform(0.1, 1.0, size=p["n"])), {}
     if p_kind == "periodic":
         pts, w = _rand_points(p["seed"], p["n"], p["dim"], p["dup"])
         if p["lattice"]:
@@ -160,7 +171,7 @@ def _build(p_kind, p):
 
 
 class Live:
-    __slots__ = ("kind", "g", "meta", "last_query", "reassigned", "built_at", "failed_last", "queries")
+    __slots__ = ("kind", "g", "meta", "last_query", "reassigned", "built_at", "failed_last", "queries", "held")
 
     def __init__(self, kind, g, meta):
         self.kind = kind
@@ -170,6 +181,7 @@ class Live:
         self.reassigned = 0
         self.failed_last = False
         self.queries = 0
+        self.held = None
 
 
 class Ctx:
@@ -391,6 +403,16 @@ def _do_query(ctx, o, c, radius, valid, opkind):
             ctx.probes.hit("finite-query-after-reassignment-with-built-tree")
         if o.kind not in ("grid1", "grid2", "grid3"):
             ctx.nontrivial = True
+    # local grids handed out earlier belong to the caller: a later query must not change them
+    prev = getattr(o, "held", None)
+    if prev is not None:
+        plg, pp, pw, pi = prev
+        if plg is not lg and not (np.array_equal(np.asarray(plg.points), pp) and np.array_equal(np.asarray(plg.weights), pw) and np.array_equal(np.asarray(plg.indices), pi)):
+            ctx.violate("earlier-result-changed", opkind, o.kind, f"{o.kind}: a local grid returned by an earlier query changed after a later query / reassignment")
+        elif plg is lg and o.last_query is not None:
+            ctx.probes.hit("same-localgrid-object-returned-twice")
+    if getattr(lg, "indices", None) is not None:
+        o.held = (lg, np.array(lg.points), np.array(lg.weights), np.array(lg.indices))
     o.last_query = (c, radius)
     ctx.log.add(ctx.step, opkind, o.kind, "ok" if good else "bad", hash_array(np.asarray(lg.indices)) if getattr(lg, "indices", None) is not None else "-")
     return lg
@@ -441,6 +463,14 @@ def _new_values(old, how, seed, is_points, domain=None):
     if is_points and domain is not None and how in ("translate", "scale", "fresh"):
         # a 1-D grid with a declared domain: stay inside it (leaving it is an invalid state, not a history)
         lo, hi = domain
+        if not np.isfinite(hi - lo):
+            # half-infinite domain (UniformInteger: [0, inf)): stay on the finite side
+            lo = lo if np.isfinite(lo) else -10.0
+            if how == "fresh":
+                return r.uniform(lo, lo + 10.0, size=old.shape)
+            if how == "scale":
+                return lo + (old - lo) * r.choice([0.5, 2.0, 0.25])
+            return old + r.uniform(0.25, 2.0)
         if how == "fresh":
             return r.uniform(lo, hi, size=old.shape)
         if how == "scale":
@@ -607,6 +637,7 @@ def _op_local_of(ctx, op):
     radius, _ = _radius_for(o, rkind, c, seed, cvalid)
     lg = _do_query(ctx, o, c, radius, True, "local_of")
     if lg is not None and len(np.asarray(lg.weights)) > 0:
+        o.held = None  # this local grid becomes a live object the caller may reassign: not watched for changes
         ctx.objs.append(Live("local", lg, {}))
         if len(ctx.objs) > ctx.spec["cfg"].get("max_live", 4) + 2:
             ctx.objs.pop(0)
